@@ -11,6 +11,7 @@ from vf.core.runner import hyp_collect
 from vf.gen import dexgen as g
 from vf.gen import dexstrat as ds
 
+ds.pin_hypothesis()
 SHRINK = not os.environ.get('VERIF_NOSHRINK')     # development switch (sensitivity runs): skip the shrink phase
 PROPERTY = 'C05'
 LEVEL = 'exploration'
